@@ -49,6 +49,20 @@ CHECKS = {
         technique="TLA+ transcription checked exhaustively by TLC + exhaustive replay of the universe on the code + TLC trace monitor",
         design_ref="DESIGN.md section 5 C06",
     ),
+    "C03": dict(
+        level="model_checking",
+        text="Dremel.tla defines the (value, r, d) streams of a value (Shred) and is self-checked by TLC over a curated "
+             "schema universe (Assemble o Shred = id, level bounds). NullRuns.tla models the typed path's null-run scanner "
+             "and is checked for every bitmap. TLC generates (schema, value) pairs, random values for a static catalogue "
+             "of 16 Go struct types and null-run batch patterns; the harness writes each through every entry point "
+             "(GenericWriter[T], Writer.Write, GenericBuffer[T], Buffer.Write, RowBuffer[T], WriteRows(Deconstruct), "
+             "ColumnWriters, GenericWriter[any]/GenericBuffer[any]) and ShredMon.tla compares the stored streams with "
+             "Shred, the paths with each other, and Reconstruct(Deconstruct(v)) with v.",
+        note="Bounded universe (depth <=3, two leaves, lists <=2-3); leaf types limited to the catalogue; Go maps "
+             "limited to one entry; zero values of optional non-pointer structs are not generated (documented latitude).",
+        technique="TLA+ library (Dremel) as the oracle in a TLC trace monitor + TLC-generated values + model of the run scanner",
+        design_ref="DESIGN.md section 5 C03",
+    ),
 }
 
 NOT_YET = "check not built yet in this round (planned; see DESIGN.md section 9.3)"
